@@ -71,6 +71,15 @@ fn base_flags(scenario: &str) -> String {
     }
 }
 
+/// The flags of one execution: a pure function of (scenario, Miri seed), so that a replay file
+/// needs nothing but the seed. The pre-emption probability per basic block varies with the seed
+/// (1 %, 20 %, 5 %, 20 %): measured on a seeded race (S8-C10), long undisturbed stretches and
+/// frequent switches each find interleavings the other does not.
+fn exec_flags(scenario: &str, seed: u64) -> String {
+    let rate = ["0.01", "0.2", "0.05", "0.2"][(seed % 4) as usize];
+    format!("{} -Zmiri-seed={seed} -Zmiri-preemption-rate={rate}", base_flags(scenario)).trim().to_string()
+}
+
 struct Out {
     ok: bool,
     text: String,
@@ -141,8 +150,7 @@ fn classify(focus: &str, text: &str) -> Option<(String, String, String)> {
 }
 
 fn single(scenario: &str, focus: &str, seed: u64, wl: &Workload) -> Result<Out, String> {
-    let flags = format!("{} -Zmiri-seed={seed}", base_flags(scenario));
-    let out = run_miri(flags.trim(), &wl.args(scenario, focus))?;
+    let out = run_miri(&exec_flags(scenario, seed), &wl.args(scenario, focus))?;
     // The scenario prints its TAPE line before it touches the code under test. A failed
     // invocation without it never ran (the crate was being rebuilt, cargo or rustc failed, ...):
     // that is a harness error, never a finding.
@@ -370,11 +378,11 @@ pub fn run(prop: &'static str, part: &MiriPart, thorough: bool, seed: u64, stats
                 let trace: Vec<String> = fin.text.lines().filter(|l| l.starts_with("CONFIG") || l.starts_with("TAPE") || l.contains("ORACLE") || l.contains("deadlock") || l.contains("Undefined Behavior") || l.contains("Data race") || l.contains("panicked at")).map(|l| l.to_string()).take(40).collect();
                 let rj = json!({
                     "property": p2, "oracle": code2, "message": msg2, "engine": "miri-sim", "focus": prop, "scenario": part.scenario,
-                    "deep": thorough, "seed": seed, "miri_seed": min_seed, "miri_flags": base_flags(part.scenario),
+                    "deep": thorough, "seed": seed, "miri_seed": min_seed, "miri_flags": exec_flags(part.scenario, min_seed),
                     "args": final_wl.args(part.scenario, prop), "tape": min_tape, "tape_original_len": tape.as_ref().map(|t| t.len()).unwrap_or(0),
                     "original": {"miri_seed": fseed, "args": wl.args(part.scenario, prop)},
                     "shrink_attempts": attempts, "trace": trace, "repo_head": repo_head(),
-                    "how_to_replay": "./check replay <this file>  (runs: MIRIFLAGS='<miri_flags> -Zmiri-seed=<miri_seed>' cargo +nightly miri run --manifest-path /verif/msim/Cargo.toml -- <args>)",
+                    "how_to_replay": "./check replay <this file>  (runs: MIRIFLAGS='<miri_flags>' cargo +nightly miri run --manifest-path /verif/msim/Cargo.toml -- <args>)",
                 });
                 let path = write_replay(&rj, prop, seed, fseed);
                 rep.found = Some(MiriFound { prop: p2, oracle: code2, msg: msg2, path });
@@ -465,8 +473,7 @@ pub fn replay(v: &Value, path: &str) -> i32 {
             return 2;
         }
     }
-    let flags = format!("{} -Zmiri-seed={seed}", base_flags(&scenario));
-    let out = match run_miri(flags.trim(), &args) {
+    let out = match run_miri(&exec_flags(&scenario, seed), &args) {
         Ok(o) => o,
         Err(e) => {
             eprintln!("HARNESS-ERROR: {e}");
